@@ -2,19 +2,6 @@ open Model
 open Util
 open Win
 
-let run_hops (c : cfg) (hops : hop list) : ev list =
-  let rec go s = function
-    | [] -> []
-    | HOp o :: r -> let (s1, e) = step c s o in e @ go s1 r
-    | HDeliver inj :: r -> let (s1, e) = deliver c s inj in e @ go s1 r
-    | HDrain :: r ->
-        let rec drain s n acc =
-          if n = 0 then (s, acc) else
-          let (s1, e) = deliver c s [] in
-          if e = [EvD0] then (s1, acc @ e) else drain s1 (n - 1) (acc @ e) in
-        let (s1, e) = drain s 200 [] in e @ go s1 r in
-  go st0 hops
-
 let handle (toks : string list) : string =
   match toks with
   | "E" :: size :: ooo :: late :: base :: rest ->
